@@ -27,7 +27,7 @@ Process(ev, i, dead) ==
                     real == SelectSeq(enters, LAMBDA k : k # "T")
                 IN [j \in 1..Len(real) |-> [s |-> "enter", kind |-> real[j], n |-> 0]] \o Process(ev, i + 1, dead \cup ChainIdx(ev, i, {}, dead))
       [] e.tag = "finish" -> << [s |-> "exit", kind |-> "-", n |-> 0] >> \o Process(ev, i + 1, dead)
-      [] e.tag = "token" -> << [s |-> "token", kind |-> "tok", n |-> e.n] >> \o Process(ev, i + 1, dead)
+      [] e.tag = "token" -> << [s |-> "token", kind |-> e.kind, n |-> e.n] >> \o Process(ev, i + 1, dead)     \* the token kind is kept ("tok" in Events.tla)
       [] e.tag = "error" -> << [s |-> "error", kind |-> "-", n |-> 0] >> \o Process(ev, i + 1, dead)
 RECURSIVE Depths(_, _)
 Depths(sk, d) == IF sk = <<>> THEN <<>>
